@@ -216,16 +216,16 @@ pub fn property() -> Property {
             format!("oracle self-test: analytic gradient/Hessian of the harness objectives agree with central differences within {:e} relative", FD_TOL),
         ],
         subs: vec![
-            prop_sub("multinomial", 1000, 12000, |t: Tier| logistic::case_strategy(true, t), multinomial_isolated)
+            prop_sub("multinomial", 4000, 36000, |t: Tier| logistic::case_strategy(true, t), multinomial_isolated)
                 .chunks(16)
                 .require(&["alpha0_overlapping", "labels_string", "classes_6", "multi_extreme_scores", "naming_not_in_class_order"]),
-            prop_sub("binary", 2000, 24000, |t: Tier| logistic::case_strategy(false, t), binary_isolated)
+            prop_sub("binary", 8000, 72000, |t: Tier| logistic::case_strategy(false, t), binary_isolated)
                 .chunks(16)
                 .require(&["alpha0_overlapping", "labels_string", "labels_bool", "binary_extreme_scores", "threshold_at_boundary", "imbalanced"]),
-            prop_sub("glm", 2400, 30000, glm::case_strategy, glm_isolated)
+            prop_sub("glm", 9000, 90000, glm::case_strategy, glm_isolated)
                 .chunks(16)
                 .require(&["power_between_1_and_2", "power_1_poisson", "link_logit", "link_identity", "target_outside_support", "zero_targets_in_support"]),
-            prop_sub("oracle_selftest", 300, 3000, |_t: Tier| self_strategy(), selftest).chunks(2),
+            prop_sub("oracle_selftest", 1200, 6000, |_t: Tier| self_strategy(), selftest).chunks(2),
         ],
     }
 }
